@@ -719,6 +719,7 @@ def csg_motion(check, prog):
                   'rotated by the same angles, and stays in slot i', prog.loc(q, fd),
                   fail_detail=detail)
     index_background(check, prog)
+    query_points_untouched(check, prog)
 
 
 def index_background(check, prog):
@@ -744,6 +745,43 @@ def index_background(check, prog):
                   'points outside every domain get the background index; the domains '
                   'are numbered along ensure_array(self.n)', prog.loc(q, fd),
                   fail_detail='returns %s' % show(v)[:200])
+
+
+def query_points_untouched(check, prog):
+    """K8: asking where points lie does not move them.  The set operations and the
+    collections hand one array of query points to every member in turn (and a
+    caller may ask twice): a query that shifts the array into its own frame in
+    place answers the next question for other points."""
+    from hpstatic.effects import writes
+    targets = [(SC + 'scatterer.Scatterer', m) for m in ('in_domain', 'index_at',
+                                                          'contains')]
+    for cq in sorted(prog.subclasses(SC + 'scatterer.Scatterer')):
+        c = prog.classes[cq]
+        for m in ('in_domain', 'index_at', 'contains'):
+            if m in c.methods and (cq, m) not in targets:
+                targets.append((cq, m))
+    n = 0
+    for cq, m in targets:
+        fd = prog.classes[cq].methods[m]
+        if len(fd.args.args) < 2:
+            continue
+        pname = fd.args.args[1].arg
+        it = Interp(prog, max_depth=1)
+        try:
+            it.analyze(cq + '.' + m)
+        except Exception as e:
+            check.error('%s.%s: %s' % (cq.rpartition('.')[2], m, e))
+            continue
+        n += 1
+        bad = [e for e, st, rs in writes(it) if ('param', pname) in rs and
+               ('fresh',) not in rs]
+        check.require(not bad, 'K8-query-points-untouched',
+                      '%s.%s' % (cq.rpartition('.')[2], m),
+                      'the array of query points is not modified', prog.loc(cq, fd),
+                      fail_detail='stores into its argument: %s' % [
+                          (e.get('target_src') or e.get('method'), e['lineno'])
+                          for e in bad][:3])
+    check.floor('containment queries checked for argument stores', n, 6)
 
 
 def bounds_search(check, prog):
